@@ -261,10 +261,10 @@ func init() {
 			{"reconstruct", 2, 2, 32, 2, true},
 		}
 		thorough := []sc{
-			{"encode", 5, 1, 48, 3, false},      // 3 x 5   (18!/(6!)^3 = 17.2 M interleavings)
-			{"encode", 3, 1, 64, 4, false},      // 4 x 3   (16!/(4!)^4 = 63.1 M)
-			
-			{"encode", 2, 2, 34, 7, false},      // g > number of 16-byte units
+			{"encode", 5, 1, 48, 3, false}, // 3 x 5   (18!/(6!)^3 = 17.2 M interleavings)
+			{"encode", 3, 1, 64, 4, false}, // 4 x 3   (16!/(4!)^4 = 63.1 M)
+
+			{"encode", 2, 2, 34, 7, false}, // g > number of 16-byte units
 		}
 		list := quick
 		if g.Thorough() {
